@@ -697,6 +697,17 @@ set_memory_constraints(void)
     in_granul = 32768u;
     out_granul = 900000u;
   }
+#ifdef KJN_LBZIP2_VERIF
+  /* Verification hook H2: decompression I/O block size overrides. */
+  if (decompress) {
+    const char *e;
+
+    if ((e = getenv("LBZIP2_VERIF_IN_GRANUL")) != NULL && strtoul(e, NULL, 10) >= 4)
+      in_granul = strtoul(e, NULL, 10) / 4 * 4;
+    if ((e = getenv("LBZIP2_VERIF_OUT_GRANUL")) != NULL && strtoul(e, NULL, 10) >= 1)
+      out_granul = strtoul(e, NULL, 10);
+  }
+#endif
 }
 
 
